@@ -284,6 +284,10 @@ def run(repo, rep, tier):
         rep.check('writers', 'value %s written for a key type is computed in that key type\'s iteration' % _v, False, _use,
                   'perform_test: `%s` can reach the table write of one host-key type with the value left by the previous type (it is not re-created in the iteration before it is read): the notes of an algorithm then depend on an unrelated algorithm probed before it' % _v,
                   witness=_w, stmt='loop-carried %s' % _v)
+    _rr, _fields, _stale = _hostkey_rating.stale_measurement_fields(repo)
+    for _fld, _why in _stale:
+        rep.check('writers', 'measurement field %s of the reused key-exchange object is fresh for every key type' % _fld, False, _rr,
+                  'KexDH.%s is %s: what is written for one host-key type depends on the type probed before it' % (_fld, _why), stmt='stale measurement field %s' % _fld)
     if not _carried:
         rep.ob('writers', 'no loop-carried value reaches the table writes of perform_test (%d values checked)' % len(_cands), True)
 
